@@ -46,8 +46,16 @@ def code_lines(src):
     skip_depth = None
     depth = 0
     pending_test = False
+    in_block = False
     for i, l in enumerate(lines):
         s = l.strip()
+        if in_block:
+            if "*/" in l:
+                in_block = False
+            continue
+        if s.startswith("/*") and "*/" not in s:
+            in_block = True
+            continue
         if s.startswith("#[cfg(test)]"):
             pending_test = True
         opens = l.count("{")
